@@ -48,6 +48,8 @@ func checkC01Write(c c01WriteCase) string {
 	s := toSubtitlesSRT(c.Doc)
 	if c.Foreign {
 		addForeignMetadata("srt", s)
+		addForeignAttributes("srt", s)
+		priorFailedWrite("srt", 5+len(s.Items)*37, len(s.Items)%3)
 	}
 	var buf bytes.Buffer
 	err := s.WriteToSRT(&buf)
